@@ -78,6 +78,7 @@ for line in sys.stdin:
                 try:
                     ds = load_xarray_dataset(run_folder=req['folder'])
                     out['xarray'] = {str(n): mp.canon(ds[n].values) for n in req['outputs'] if n in ds}
+                    out['xarray_coords'] = {str(n): mp.canon(ds[n].values) for n in req.get('roots', []) if n in ds.coords}
                 except Exception as e:
                     out['xarray_error'] = type(e).__name__ + ': ' + str(e)[:200]
     except Exception as e:
@@ -170,7 +171,7 @@ def body(data) -> Outcome:
     side = boot.fresh_path("c04side") + ".json"
     inputs = mp.make_inputs(prog)
 
-    def run():
+    def run(inputs=inputs):
         from pipefunc.map._run_info import RunInfo
 
         pipe = mp.build_pipeline(prog)
@@ -185,12 +186,13 @@ def body(data) -> Outcome:
             return out
         child = r["result"]
         use_xarray = xarray_domain(prog)
+        roots1d = [r for r in inputs if len(prog["roots"][r]["axes"]) == 1]
         for where in ("same-process", "fresh-interpreter"):
             out.labels.append(where)
             if where == "same-process":
-                got = _load_here(folder, names, use_xarray)
+                got = _load_here(folder, names, use_xarray, roots1d)
             else:
-                got = ask_worker({"folder": folder, "outputs": names, "xarray": use_xarray})
+                got = ask_worker({"folder": folder, "outputs": names, "xarray": use_xarray, "roots": roots1d})
             if "fatal" in got:
                 out.fail(f"{where}-load-crashed", got["fatal"])
                 continue
@@ -229,12 +231,39 @@ def body(data) -> Outcome:
                     for o, v in got.get("xarray", {}).items():
                         if mp.func_of_output(prog)[o]["mapspec"] and v != mp.canon(ref[o]):
                             out.fail(f"{where}-xarray-values-differ", f"{o}: got {str(v)[:200]} want {str(mp.canon(ref[o]))[:200]}")
+                    for r, v in got.get("xarray_coords", {}).items():
+                        if v != mp.canon(inputs[r]):
+                            out.fail(f"{where}-xarray-coordinate-differs-from-input", f"{r}: got {str(v)[:200]} want {str(mp.canon(inputs[r]))[:200]}")
+        # ---- a second run with different input values into the SAME folder (cleanup=True): nothing of the first
+        # run - on disk or remembered by the loading process - may survive
+        if data.get("rerun", True):
+            inputs2 = mp.make_inputs(prog, variant="'")
+            ref2 = mp.denotation(prog, inputs=inputs2)
+            r2 = faultfs.run_child(lambda: run(inputs2), folder, None, side)
+            if not r2.get("ok"):
+                out.fail("second-run-into-same-folder-refused", str({k: v for k, v in r2.items() if k != "result"})[:300])
+            else:
+                out.labels.append("second-run")
+                for where in ("same-process", "fresh-interpreter"):
+                    got = (_load_here(folder, names, use_xarray, roots1d) if where == "same-process"
+                           else ask_worker({"folder": folder, "outputs": names, "xarray": use_xarray, "roots": roots1d}))
+                    for r, v in got.get("xarray_coords", {}).items():
+                        if v != mp.canon(inputs2[r]):
+                            out.fail(f"{where}-second-run-xarray-coordinate-stale", f"{r}: got {str(v)[:200]} want {str(mp.canon(inputs2[r]))[:200]}")
+                    for o in names:
+                        v = got.get("loaded", {}).get(o)
+                        if v != mp.canon(ref2[o]):
+                            stale = v == mp.canon(ref[o])
+                            out.fail(f"{where}-second-run-{'stale-first-run-data' if stale else 'differs'}", f"{o}: got {str(v)[:200]} want {str(mp.canon(ref2[o]))[:200]}")
+                    ri = got.get("run_info")
+                    if ri is not None and ri["inputs"] != {k: mp.canon(v) for k, v in inputs2.items()}:
+                        out.fail(f"{where}-second-run-RunInfo-inputs-stale", str(ri["inputs"])[:200])
     finally:
         boot.rm(folder)
     return out
 
 
-def _load_here(folder, names, use_xarray) -> dict:
+def _load_here(folder, names, use_xarray, roots=None) -> dict:
     from pipefunc.map import load_outputs, load_xarray_dataset
     from pipefunc.map._run_info import RunInfo
 
@@ -253,6 +282,7 @@ def _load_here(folder, names, use_xarray) -> dict:
         try:
             ds = load_xarray_dataset(run_folder=folder)
             got["xarray"] = {str(n): mp.canon(ds[n].values) for n in names if n in ds}
+            got["xarray_coords"] = {str(n): mp.canon(ds[n].values) for n in (roots or []) if n in ds.coords}
         except Exception as e:
             got["xarray_error"] = f"{type(e).__name__}: {str(e)[:200]}"
     return got
